@@ -84,8 +84,9 @@ def FIND(
     start_num_int = int(start_num)
 
     # Excel operates in 1-based land, Python is usually 0-based.
-    if start_num_int > 0:
-        start_num_int = start_num_int - 1
+    if start_num_int < 1:
+        raise xlerrors.ValueExcelError(f'start_num {start_num_int} is < 1')
+    start_num_int = start_num_int - 1
 
     try:
         index = within_text_str.index(find_text_str, start_num_int) + 1
@@ -109,7 +110,10 @@ def LEFT(
     https://support.office.com/en-us/article/
         left-leftb-functions-9203d2d2-7960-479b-84c6-1ea52b99640c
     """
-    return str(text)[:int(num_chars)]
+    num_chars = int(num_chars)
+    if num_chars < 0:
+        raise xlerrors.ValueExcelError(f'{num_chars} is < 0')
+    return str(text)[:num_chars]
 
 
 @xl.register()
@@ -189,10 +193,11 @@ def REPLACE(
     num_chars_int = int(num_chars)
     new_text_str = str(new_text)
 
-    sliced_old_text = old_text_str[start_num_int:
-                                   start_num_int + num_chars_int]
+    if start_num_int < 0 or num_chars_int < 0:
+        raise xlerrors.ValueExcelError('start_num < 1 or num_chars < 0')
 
-    return old_text_str.replace(sliced_old_text, new_text_str)
+    return (old_text_str[:start_num_int] + new_text_str
+            + old_text_str[start_num_int + num_chars_int:])
 
 
 @xl.register()
@@ -206,7 +211,11 @@ def RIGHT(
     https://support.office.com/en-us/article/
         right-rightb-functions-240267ee-9afa-4639-a02b-f19e1786cf2f
     """
-    return str(text)[-int(num_chars):]
+    num_chars = int(num_chars)
+    if num_chars < 0:
+        raise xlerrors.ValueExcelError(f'{num_chars} is < 0')
+    text = str(text)
+    return text[len(text) - min(num_chars, len(text)):]
 
 
 @xl.register()
@@ -219,7 +228,7 @@ def TRIM(
     https://support.office.com/en-us/article/
         trim-function-410388fa-c5df-49c6-b16c-9e5630b479f9
     """
-    return str(text).strip()
+    return ' '.join(word for word in str(text).split(' ') if word)
 
 
 @xl.register()
